@@ -25,6 +25,7 @@ import (
 
 type reqRec struct {
 	ID        int
+	Client    int
 	Req       Req
 	Status    int
 	Statuses  []int
@@ -197,7 +198,7 @@ func (st *runState) client(sys *System, ci int, reqs []Req) {
 		}
 		st.mu.Lock()
 		st.next++
-		rec := &reqRec{ID: st.next, Req: r, StartT: time.Now()}
+		rec := &reqRec{ID: st.next, Req: r, StartT: time.Now(), Client: ci}
 		st.reqs = append(st.reqs, rec)
 		st.mu.Unlock()
 		if r.NoDB {
@@ -234,7 +235,7 @@ func (st *runState) client(sys *System, ci int, reqs []Req) {
 		cancel()
 		rec.Returned = true
 		rec.EndT = time.Now()
-		rec.Stmts = st.db.Since(from)
+		rec.Stmts = st.db.ForScript(&res, from)
 		if rec.Panicked == "" && rec.Status == 0 {
 			rec.Status = 200
 		}
